@@ -1,10 +1,10 @@
 ---- MODULE Oracle_Selector ----
 (* Batch oracle (B2, B3): judges what the real selectors did.                                      *)
-(*   scripts.ndjson : histories (from Gen_Selector)            {ops: <<[o, h, w, l]>>}             *)
+(*   scripts.ndjson : histories (from Gen_Selector)            {ops: <<[o, h, w, t, l]>>}          *)
 (*   obs.ndjson     : one record per history x strategy x mode {i, s, wt, hang, obs: <<[p, e, sp, sel]>>} *)
 (*                    obs[j] = what was seen after ops[j]: panic of the operation, its error flag,  *)
 (*                    panic of a selection, a window of selections (host; 0 = error; -1 = alien)    *)
-(*   wrecs.ndjson   : BuildStaticWeightList records            {w, ord, out, p}                    *)
+(*   wrecs.ndjson   : BuildStaticWeightList records            {w, t, ord, out, p}                 *)
 (* The member list is computed by the specification's own operators (Dedup/AddM/RemoveM); the       *)
 (* observation is judged at two levels:                                                             *)
 (*   P - what property C13 states (membership, error iff none eligible, rotation, weighted cycle,   *)
@@ -19,8 +19,8 @@ Obs == ndJsonDeserialize("obs.ndjson")
 WRecs == ndJsonDeserialize("wrecs.ndjson")
 
 Strat(s) == IF s = "conhashd" THEN "conhash" ELSE s
-Ep(op) == [h |-> op.h, w |-> op.w]
-ListOf(op) == [i \in 1..Len(op.l) |-> [h |-> op.l[i].h, w |-> op.l[i].w]]
+Ep(op) == [h |-> op.h, w |-> op.w, t |-> op.t]
+ListOf(op) == [i \in 1..Len(op.l) |-> [h |-> op.l[i].h, w |-> op.l[i].w, t |-> op.l[i].t]]
 Apply(m, op) == IF op.o = "F" THEN Dedup(ListOf(op))
                 ELSE IF op.o = "A" THEN AddM(m, Ep(op))
                 ELSE RemoveM(m, Ep(op))
@@ -44,7 +44,7 @@ PClass(s, wt, m, o) ==
      ELSE IF \E j \in 1..Len(sel) : sel[j] \notin HostsOf(m) \cup {0} THEN "non-member"
      ELSE IF none THEN (IF \A j \in 1..Len(sel) : sel[j] = 0 THEN "ok" ELSE "selected-though-none-eligible")
      ELSE IF \E j \in 1..Len(sel) : sel[j] = 0 THEN "error-though-eligible"
-     ELSE IF s = "rr" /\ ~wt
+     ELSE IF s = "rr" /\ ~WeightsApply(s, wt, m)        \* weights off, or a member without a static weight
           THEN (IF Len(sel) < Len(m) THEN "window-too-short"
                 ELSE IF Periodic(sel, Len(m)) /\ WindowCounts(sel, Len(m), m, [i \in 1..Len(m) |-> 1]) THEN "ok" ELSE "rotation")
      ELSE IF s = "rr" /\ UsesCycle(s, wt, m)
@@ -97,6 +97,8 @@ WJudge(r) ==
   IN IF r.p # "" THEN <<"panic", "ok">>
      ELSE IF \E k \in 1..Len(out1) : out1[k] \notin 1..n THEN <<"index-out-of-range", "ok">>
      ELSE IF n = 0 THEN <<"ok", "ok">>
+     ELSE IF \E i \in 1..n : r.t[i] # StaticT                           \* an endpoint without a static weight:
+          THEN (IF out1 = <<>> THEN <<"ok", "ok">> ELSE <<"ok", "list-despite-nonstatic">>)   \* no list (observation)
      ELSE IF ~AllPositive(r.w) THEN <<"ok", "ok">>                     \* degenerate: totality and valid indexes only
      ELSE IF \E i \in 1..n : CountIn(out1, i) # FormulaCount(r.w, i) THEN <<"count", "ok">>
      ELSE IF out1 # StaticWeightList(r.w, r.ord) THEN <<"ok", "order">>
